@@ -7,12 +7,14 @@ package main
 // lacks is a broken correspondence AND a concrete violation).
 
 import (
+	"bytes"
 	"context"
 	"crypto/sha256"
 	"encoding/base64"
 	"encoding/json"
 	"fmt"
 	"net/http"
+	"sort"
 	"strings"
 	"time"
 
@@ -20,6 +22,7 @@ import (
 	"github.com/matrix-org/gomatrixserverlib/fclient"
 	"github.com/matrix-org/gomatrixserverlib/spec"
 	"github.com/matrix-org/gomatrixserverlib/tokens"
+	"github.com/tidwall/gjson"
 	"golang.org/x/crypto/ed25519"
 )
 
@@ -27,6 +30,17 @@ import (
 var fuzzKey = ed25519.NewKeyFromSeed(make([]byte, ed25519.SeedSize))
 
 func init() { areas["fuzz"] = Area{Gen: genFuzz, Exec: execFuzz} }
+
+// NilQuerier answers like StdQuerier for a sender that is a user ID and (nil, nil) — "no such user, no error" — for
+// every other sender: what a pseudo-ID homeserver's querier does for a room key it does not know (the repository's own
+// NilUserIDForBadSenderTest does the same for one fixed sender).
+func NilQuerier(roomID spec.RoomID, senderID spec.SenderID) (*spec.UserID, error) {
+	u, err := spec.NewUserID(string(senderID), true)
+	if err != nil {
+		return nil, nil
+	}
+	return u, nil
+}
 
 // okVerifier accepts every signature.
 type okVerifier struct{}
@@ -92,19 +106,26 @@ func eventPipeline(ver string, js []byte, others [][]byte) {
 	}
 	e := evs[0]
 	_ = gmsl.VerifyEventSignatures(context.Background(), e, okVerifier{}, StdQuerier)
+	_ = gmsl.VerifyEventSignatures(context.Background(), e, okVerifier{}, NilQuerier)
 	var state []gmsl.PDU
 	for _, x := range evs[1:] {
 		if x.StateKey() != nil {
 			state = append(state, x)
 		}
 	}
+	// (both queriers: the standard one never answers (nil, nil), a pseudo-ID querier does for an unknown key)
 	if prov, err := gmsl.NewAuthEvents(state); err == nil {
 		_ = gmsl.Allowed(e, prov, StdQuerier)
+		_ = gmsl.Allowed(e, prov, NilQuerier)
+		for _, x := range evs[1:] {
+			_ = gmsl.Allowed(x, prov, NilQuerier)
+		}
 	}
 	for _, x := range evs {
 		if x.StateKey() != nil {
 			if prov, err := gmsl.NewAuthEvents([]gmsl.PDU{x}); err == nil {
 				_ = gmsl.Allowed(e, prov, StdQuerier)
+				_ = gmsl.Allowed(e, prov, NilQuerier)
 			}
 		}
 	}
@@ -124,6 +145,8 @@ func eventPipeline(ver string, js []byte, others [][]byte) {
 		}
 		_, _ = gmsl.ResolveConflictsNew(gmsl.RoomVersion(ver), [][]gmsl.PDU{sevs[:half], sevs}, evs, StdQuerier, func(string) bool { return false })
 		_, _ = gmsl.ResolveConflicts(gmsl.RoomVersion(ver), sevs, evs, StdQuerier, func(string) bool { return false })
+		_, _ = gmsl.ResolveConflictsNew(gmsl.RoomVersion(ver), [][]gmsl.PDU{sevs[:half], sevs}, evs, NilQuerier, func(string) bool { return false })
+		_, _ = gmsl.ResolveConflicts(gmsl.RoomVersion(ver), sevs, evs, NilQuerier, func(string) bool { return false })
 	}
 	// SetUnsigned() returns a copy: every accessor must work on it as well
 	if u, err := e.SetUnsigned(map[string]interface{}{"a": 1}); err == nil {
@@ -148,8 +171,10 @@ func execFuzz(op string, args []string) string {
 	ver := args[0]
 	in := unhx(args[1])
 	var others [][]byte
-	for _, a := range args[2:] {
-		others = append(others, unhx(a))
+	if op == "event" {
+		for _, a := range args[2:] {
+			others = append(others, unhx(a))
+		}
 	}
 	switch op {
 	case "event":
@@ -224,10 +249,25 @@ func execFuzz(op string, args []string) string {
 			_ = rs.GetStateEvents().UntrustedEvents(gmsl.RoomVersion(ver))
 			_ = gmsl.LineariseStateResponse(gmsl.RoomVersion(ver), &rs)
 			_, _, _ = gmsl.CheckStateResponse(context.Background(), &rs, gmsl.RoomVersion(ver), okVerifier{}, nil, StdQuerier)
+			_, _, _ = gmsl.CheckStateResponse(context.Background(), &rs, gmsl.RoomVersion(ver), okVerifier{}, nil, NilQuerier)
 		}
 		var sj fclient.RespSendJoin
 		if err := json.Unmarshal(in, &sj); err == nil {
 			_ = sj.GetStateEvents().TrustedEvents(gmsl.RoomVersion(ver), false)
+			// CheckSendJoinResponse with the first event of the response that parses standing in for the join event
+			if v, verr := gmsl.GetRoomVersion(gmsl.RoomVersion(ver)); verr == nil {
+				var je gmsl.PDU
+				for _, raw := range append(append(gmsl.EventJSONs{sj.GetJoinEvent()}, sj.GetStateEvents()...), sj.GetAuthEvents()...) {
+					if e, err := v.NewEventFromUntrustedJSON(raw); err == nil {
+						je = e
+						break
+					}
+				}
+				if je != nil {
+					_, _ = gmsl.CheckSendJoinResponse(context.Background(), gmsl.RoomVersion(ver), &sj, okVerifier{}, je, nil, StdQuerier)
+					_, _ = gmsl.CheckSendJoinResponse(context.Background(), gmsl.RoomVersion(ver), &sj, okVerifier{}, je, nil, NilQuerier)
+				}
+			}
 		}
 		var ri fclient.RespInvite
 		_ = json.Unmarshal(in, &ri)
@@ -239,6 +279,248 @@ func execFuzz(op string, args []string) string {
 		_ = json.Unmarshal(in, &ud)
 		var tx gmsl.Transaction
 		_ = json.Unmarshal(in, &tx)
+	case "makejoin":
+		// a make_join / make_leave / make_knock response (or a v3 invite request): the proto event the REMOTE server chose is
+		// turned into an event builder and built (PerformJoin: `respMakeJoin.GetJoinEvent()` ->
+		// `NewEventBuilderFromProtoEvent(&joinEvent).Build(...)`), for the version of the op and for the response's own
+		var mj fclient.RespMakeJoin
+		if err := json.Unmarshal(in, &mj); err == nil {
+			buildProto(ver, mj.GetJoinEvent(), mj.GetRoomVersion())
+		}
+		var ml fclient.RespMakeLeave
+		if err := json.Unmarshal(in, &ml); err == nil {
+			buildProto(ver, ml.LeaveEvent, ml.RoomVersion)
+		}
+		var mk fclient.RespMakeKnock
+		if err := json.Unmarshal(in, &mk); err == nil {
+			buildProto(ver, mk.KnockEvent, mk.RoomVersion)
+		}
+		var i3 fclient.InviteV3Request
+		if err := json.Unmarshal(in, &i3); err == nil {
+			buildProto(ver, i3.Event(), i3.RoomVersion())
+			_ = i3.InviteRoomState()
+			_, _ = json.Marshal(i3)
+		}
+	case "buildrefs":
+		// the reference conversion alone (model: EventBuild.refsOfJSON): a proto event whose other fields are fixed and good
+		return buildRefs(ver, args[1], args[2])
+	case "fedtypes":
+		fedTypes(ver, in)
+	case "headered":
+		// headered JSON is the homeserver's own storage format: `_event_id` / `_room_version` are written by ToHeaderedJSON.
+		// The accessors are swept when `_event_id` is the ID the library itself gives the event (with any other ID,
+		// EventID() / RoomID() are the caller's contract: NewEventFromTrustedJSONWithEventID takes the ID as given)
+		for _, redacted := range []bool{false, true} {
+			e, err := gmsl.NewEventFromHeaderedJSON(in, redacted)
+			if err != nil || e == nil {
+				continue
+			}
+			_ = e.Type()
+			_ = e.Content()
+			_ = e.StateKey()
+			_ = e.SenderID()
+			_ = e.JSON()
+			_ = e.Version()
+			_ = e.Redacted()
+			v, verr := gmsl.GetRoomVersion(e.Version())
+			if verr != nil {
+				continue
+			}
+			own, oerr := v.NewEventFromTrustedJSON(e.JSON(), redacted)
+			if oerr != nil || own == nil {
+				continue
+			}
+			hid := gjson.GetBytes(in, "_event_id")
+			if hid.Type == gjson.String && hid.String() != "" && own.EventID() == hid.String() {
+				touchAccessors(e)
+				if hj, err := e.ToHeaderedJSON(); err == nil {
+					if e2, err := gmsl.NewEventFromHeaderedJSON(hj, redacted); err == nil {
+						touchAccessors(e2)
+					}
+				}
+			}
+		}
+	case "text":
+		// the text / JSON codecs of the small types that appear inside bodies and map keys
+		var lr gmsl.PublicKeyLookupRequest
+		if err := lr.UnmarshalText(in); err == nil {
+			_, _ = lr.MarshalText()
+		}
+		var lm map[gmsl.PublicKeyLookupRequest]spec.Timestamp
+		if err := json.Unmarshal(in, &lm); err == nil {
+			_, _ = json.Marshal(lm)
+		}
+		var hs gmsl.HexString
+		if err := hs.UnmarshalJSON(in); err == nil {
+			_, _ = hs.MarshalJSON()
+		}
+		var b64 spec.Base64Bytes
+		if err := b64.UnmarshalJSON(in); err == nil {
+			_, _ = b64.MarshalJSON()
+			_ = b64.Encode()
+		}
+		_ = b64.Decode(string(in))
+		_ = b64.Scan(in)
+		_ = b64.Scan(string(in))
+		_, _ = b64.Value()
+		var raw spec.RawJSON
+		if err := raw.UnmarshalJSON(in); err == nil {
+			_, _ = raw.MarshalJSON()
+		}
+		var ts spec.Timestamp
+		if err := json.Unmarshal(in, &ts); err == nil {
+			_ = ts.Time()
+		}
+		var iss gmsl.InviteStrippedState
+		if err := json.Unmarshal(in, &iss); err == nil {
+			_, _ = json.Marshal(iss)
+			_ = iss.Content()
+			_ = iss.StateKey()
+			_ = iss.Type()
+			_ = iss.Sender()
+		}
+		var pl gmsl.PowerLevelContent
+		if err := json.Unmarshal(in, &pl); err == nil {
+			_ = pl.UserLevel("@a:b")
+			_ = pl.EventLevel("m.room.name", true)
+			_ = pl.NotificationLevel("room")
+		}
+		var mc gmsl.MemberContent
+		_ = json.Unmarshal(in, &mc)
+		var tpi gmsl.ThirdPartyInviteContent
+		_ = json.Unmarshal(in, &tpi)
+		var mm gmsl.MXIDMapping
+		if err := json.Unmarshal(in, &mm); err == nil {
+			_ = mm.Sign("me", "ed25519:1", fuzzKey)
+		}
+		var sk gmsl.ServerKeys
+		if err := json.Unmarshal(in, &sk); err == nil {
+			_, _ = json.Marshal(sk)
+			_ = sk.PublicKey("ed25519:1", 5)
+			_, _ = gmsl.CheckKeys(sk.ServerName, time.Unix(0, 0), sk)
+		}
+	case "xsign":
+		var k fclient.CrossSigningKey
+		if err := json.Unmarshal(in, &k); err == nil {
+			var k2 fclient.CrossSigningKey
+			_ = json.Unmarshal(in, &k2)
+			_ = k.Equal(&k2)
+			_ = k.Equal(nil)
+			_, _ = json.Marshal(k)
+		}
+		var ks fclient.CrossSigningKeys
+		if err := json.Unmarshal(in, &ks); err == nil {
+			_ = ks.MasterKey.Equal(&ks.SelfSigningKey)
+			_, _ = json.Marshal(ks)
+		}
+		var kd fclient.CrossSigningForKeyOrDevice
+		if err := json.Unmarshal(in, &kd); err == nil {
+			_, _ = json.Marshal(kd)
+		}
+		var m map[string]map[string]fclient.CrossSigningForKeyOrDevice
+		if err := json.Unmarshal(in, &m); err == nil {
+			_, _ = json.Marshal(m)
+		}
+		var dk fclient.DeviceKeys
+		if err := json.Unmarshal(in, &dk); err == nil {
+			_, _ = json.Marshal(dk)
+		}
+		var qk fclient.RespQueryKeys
+		if err := json.Unmarshal(in, &qk); err == nil {
+			_, _ = json.Marshal(qk)
+		}
+		var ck fclient.RespClaimKeys
+		_ = json.Unmarshal(in, &ck)
+	case "invite":
+		var i2 fclient.InviteV2Request
+		if err := json.Unmarshal(in, &i2); err == nil {
+			if e := i2.Event(); e != nil {
+				touchAccessors(e)
+			}
+			_ = i2.RoomVersion()
+			_ = i2.InviteRoomState()
+			_, _ = json.Marshal(i2)
+		}
+		var i3 fclient.InviteV3Request
+		if err := json.Unmarshal(in, &i3); err == nil {
+			pe := i3.Event()
+			_ = i3.RoomVersion()
+			_ = i3.InviteRoomState()
+			_, _ = json.Marshal(i3)
+			_, _ = gmsl.StateNeededForProtoEvent(&pe)
+		}
+		var ri fclient.RespInvite
+		if err := json.Unmarshal(in, &ri); err == nil {
+			_, _ = json.Marshal(ri)
+			if v, err := gmsl.GetRoomVersion(gmsl.RoomVersion(ver)); err == nil {
+				if e, err := v.NewEventFromUntrustedJSON(ri.Event); err == nil {
+					touchAccessors(e)
+				}
+			}
+		}
+		var ri2 fclient.RespInviteV2
+		if err := json.Unmarshal(in, &ri2); err == nil {
+			if v, err := gmsl.GetRoomVersion(gmsl.RoomVersion(ver)); err == nil {
+				if e, err := v.NewEventFromUntrustedJSON(ri2.Event); err == nil {
+					touchAccessors(e)
+					_ = e.Sign("me", "ed25519:1", fuzzKey)
+				}
+			}
+		}
+	case "txn":
+		var tx gmsl.Transaction
+		if err := json.Unmarshal(in, &tx); err == nil {
+			_, _ = json.Marshal(tx)
+			for _, edu := range tx.EDUs {
+				_ = edu.CacheCost()
+				_, _ = json.Marshal(edu)
+			}
+			if v, err := gmsl.GetRoomVersion(gmsl.RoomVersion(ver)); err == nil {
+				var evs []gmsl.PDU
+				for _, raw := range tx.PDUs {
+					if e, err := v.NewEventFromUntrustedJSON(raw); err == nil {
+						touchAccessors(e)
+						evs = append(evs, e)
+					}
+				}
+				_ = gmsl.ReverseTopologicalOrdering(evs, gmsl.TopologicalOrderByPrevEvents)
+			}
+		}
+		var edu gmsl.EDU
+		if err := json.Unmarshal(in, &edu); err == nil {
+			_ = edu.CacheCost()
+		}
+		var rs fclient.RespSend
+		_ = json.Unmarshal(in, &rs)
+	case "httpreq":
+		// VerifyHTTPRequest on a request with up to two Authorization headers, a chosen Content-Type, method, URI and body
+		hdr1, hdr2, ctype, method, uri, body := string(unhx(args[1])), string(unhx(args[2])), string(unhx(args[3])), string(unhx(args[4])), string(unhx(args[5])), unhx(args[6])
+		req, err := http.NewRequest(method, "http://x"+uri, bytes.NewReader(body))
+		if err == nil {
+			if hdr1 != "" {
+				req.Header.Add("Authorization", hdr1)
+			}
+			if hdr2 != "" {
+				req.Header.Add("Authorization", hdr2)
+			}
+			if ctype != "" {
+				req.Header.Set("Content-Type", ctype)
+			}
+			fr, _ := fclient.VerifyHTTPRequest(req, time.Unix(1, 0), "x", func(spec.ServerName) bool { return true }, okVerifier{})
+			if fr != nil {
+				_ = fr.Content()
+				_ = fr.Origin()
+				_ = fr.Destination()
+				_ = fr.Method()
+				_ = fr.RequestURI()
+				_, _ = fr.HTTPRequest()
+			}
+			req2, err := http.NewRequest(method, "http://x"+uri, bytes.NewReader(body))
+			if err == nil {
+				req2.Header = req.Header
+				_, _ = fclient.VerifyHTTPRequest(req2, time.Unix(1, 0), "x", func(spec.ServerName) bool { return false }, okVerifier{})
+			}
+		}
 	case "token":
 		_, _ = tokens.GetUserFromToken(string(in))
 		_ = tokens.ValidateToken(tokens.TokenOptions{ServerPrivateKey: []byte("k"), ServerName: "s", UserID: "@u:s"}, string(in))
@@ -247,6 +529,495 @@ func execFuzz(op string, args []string) string {
 	}
 	return "nopanic"
 }
+
+
+// ---- proto events chosen by the remote server (make_join / make_leave / make_knock responses, v3 invites) ----
+
+func builtSweep(v gmsl.IRoomVersion, pe gmsl.ProtoEvent, withAuth bool) {
+	eb := v.NewEventBuilderFromProtoEvent(&pe)
+	if withAuth {
+		if prov, err := gmsl.NewAuthEvents(nil); err == nil {
+			_ = eb.AddAuthEvents(prov)
+		}
+	}
+	if e, err := eb.Build(time.Unix(1, 0), "me", "ed25519:1", fuzzKey); err == nil && e != nil {
+		touchAccessors(e)
+	}
+}
+
+// buildProto builds the proto event (a) as received, (b) with the fields PerformJoin overwrites set to good values —
+// what stays under the remote server's control then is prev_events, auth_events, depth, signatures and the content
+// members — and (c) after AddAuthEvents; for the version of the op and for the version the response names.
+func buildProto(ver string, pe gmsl.ProtoEvent, respVer gmsl.RoomVersion) {
+	_, _ = gmsl.StateNeededForProtoEvent(&pe)
+	vers := []gmsl.RoomVersion{gmsl.RoomVersion(ver)}
+	if respVer != "" && string(respVer) != ver {
+		vers = append(vers, respVer)
+	}
+	for _, rv := range vers {
+		v, err := gmsl.GetRoomVersion(rv)
+		if err != nil {
+			continue
+		}
+		builtSweep(v, pe, false)
+		pj := pe
+		pj.Type = spec.MRoomMember
+		pj.RoomID = "!r:me"
+		if v.DomainlessRoomIDs() {
+			pj.RoomID = "!" + strings.Repeat("A", 43)
+		}
+		pj.Redacts = ""
+		sk := "@u:me"
+		pj.SenderID = sk
+		pj.StateKey = &sk
+		content := map[string]interface{}{}
+		_ = json.Unmarshal(pe.Content, &content)
+		if content == nil { // (PerformJoin writes into the nil map here: the handshake area's finding, not this stream's)
+			content = map[string]interface{}{}
+		}
+		content["membership"] = spec.Join
+		_ = pj.SetContent(content)
+		_ = pj.SetUnsigned(struct{}{})
+		builtSweep(v, pj, false)
+		builtSweep(v, pj, true)
+	}
+}
+
+// buildRefs: `EventBuilder.Build` on a proto event whose prev_events / auth_events are the decoded JSON texts given
+// ("-" = member absent) and whose other fields are fixed.  Outcome: ok:<hex prev_events of the built event>:<hex
+// auth_events>, or err.
+func buildRefs(ver, prevHex, authHex string) string {
+	v, err := gmsl.GetRoomVersion(gmsl.RoomVersion(ver))
+	if err != nil {
+		return "err:version"
+	}
+	dec := func(h string) interface{} {
+		if h == "-" {
+			return nil
+		}
+		var x interface{}
+		if err := json.Unmarshal(unhx(h), &x); err != nil {
+			return nil
+		}
+		return x
+	}
+	sk := "@u:me"
+	pe := gmsl.ProtoEvent{SenderID: sk, RoomID: "!r:me", Type: spec.MRoomMember, StateKey: &sk, PrevEvents: dec(prevHex), AuthEvents: dec(authHex),
+		Depth: 1, Content: spec.RawJSON(`{"membership":"join"}`)}
+	if v.DomainlessRoomIDs() {
+		pe.RoomID = "!" + strings.Repeat("A", 43)
+	}
+	e, err := v.NewEventBuilderFromProtoEvent(&pe).Build(time.Unix(1, 0), "me", "ed25519:1", fuzzKey)
+	if err != nil || e == nil {
+		return "err"
+	}
+	var m map[string]json.RawMessage
+	if err := json.Unmarshal(e.JSON(), &m); err != nil {
+		return "err:json"
+	}
+	return "ok:" + hx(m["prev_events"]) + ":" + hx(m["auth_events"])
+}
+
+// ownEventID is the ID the library gives an event it reads from trusted JSON ("" when it refuses the text).
+func ownEventID(ver string, js []byte) (id string) {
+	defer func() {
+		if recover() != nil {
+			id = ""
+		}
+	}()
+	v, err := gmsl.GetRoomVersion(gmsl.RoomVersion(ver))
+	if err != nil {
+		return ""
+	}
+	e, err := v.NewEventFromTrustedJSON(js, false)
+	if err != nil || e == nil {
+		return ""
+	}
+	return e.EventID()
+}
+
+// fedTypes decodes one body into every response / request type of fclient/federationtypes.go and calls the accessors.
+func fedTypes(ver string, in []byte) {
+	rv := gmsl.RoomVersion(ver)
+	var rs fclient.RespState
+	if err := json.Unmarshal(in, &rs); err == nil {
+		_ = rs.GetStateEvents().UntrustedEvents(rv)
+		_ = rs.GetAuthEvents().UntrustedEvents(rv)
+		_ = rs.GetAuthEvents().TrustedEvents(rv, false)
+		_, _ = json.Marshal(rs)
+		_ = gmsl.LineariseStateResponse(rv, &rs)
+	}
+	var pk fclient.RespPeek
+	if err := json.Unmarshal(in, &pk); err == nil {
+		_ = pk.GetStateEvents().UntrustedEvents(rv)
+		_ = pk.GetAuthEvents().UntrustedEvents(rv)
+		_, _ = json.Marshal(pk)
+	}
+	var sj fclient.RespSendJoin
+	if err := json.Unmarshal(in, &sj); err == nil {
+		_ = sj.GetStateEvents().UntrustedEvents(rv)
+		_ = sj.GetAuthEvents().UntrustedEvents(rv)
+		_ = sj.GetOrigin()
+		_ = sj.GetJoinEvent()
+		_ = sj.GetMembersOmitted()
+		_ = sj.GetServersInRoom()
+		_, _ = json.Marshal(sj)
+		_ = gmsl.LineariseStateResponse(rv, &sj)
+	}
+	var skn fclient.RespSendKnock
+	_ = json.Unmarshal(in, &skn)
+	var mj fclient.RespMakeJoin
+	if err := json.Unmarshal(in, &mj); err == nil {
+		pe := mj.GetJoinEvent()
+		_ = mj.GetRoomVersion()
+		_, _ = gmsl.StateNeededForProtoEvent(&pe)
+		_, _ = json.Marshal(mj)
+	}
+	var me fclient.RespMissingEvents
+	if err := json.Unmarshal(in, &me); err == nil {
+		_ = me.Events.UntrustedEvents(rv)
+		_, _ = json.Marshal(me)
+	}
+	var mreq fclient.MissingEvents
+	_ = json.Unmarshal(in, &mreq)
+	var si fclient.RespStateIDs
+	if err := json.Unmarshal(in, &si); err == nil {
+		_ = si.GetStateEventIDs()
+		_ = si.GetAuthEventIDs()
+	}
+	var ea fclient.RespEventAuth
+	if err := json.Unmarshal(in, &ea); err == nil {
+		_ = ea.AuthEvents.UntrustedEvents(rv)
+	}
+	var ud fclient.RespUserDevices
+	if err := json.Unmarshal(in, &ud); err == nil {
+		_, _ = json.Marshal(ud)
+		if ud.MasterKey != nil {
+			_ = ud.MasterKey.Equal(ud.SelfSigningKey)
+		}
+	}
+	var pr fclient.RespPublicRooms
+	if err := json.Unmarshal(in, &pr); err == nil {
+		_, _ = json.Marshal(pr)
+	}
+	var dir fclient.RespDirectory
+	_ = json.Unmarshal(in, &dir)
+	var prof fclient.RespProfile
+	_ = json.Unmarshal(in, &prof)
+	var vsn fclient.Version
+	_ = json.Unmarshal(in, &vsn)
+	var snd fclient.RespSend
+	_ = json.Unmarshal(in, &snd)
+	if r, err := fclient.NewMSC2836EventRelationshipsRequest(bytes.NewReader(in)); err == nil && r != nil {
+		_, _ = json.Marshal(r)
+	}
+	var er fclient.MSC2836EventRelationshipsResponse
+	if err := json.Unmarshal(in, &er); err == nil {
+		_ = er.Events.UntrustedEvents(rv)
+		_ = er.AuthChain.UntrustedEvents(rv)
+	}
+	var rh fclient.RoomHierarchyResponse
+	if err := json.Unmarshal(in, &rh); err == nil {
+		_, _ = json.Marshal(rh)
+	}
+	var ri fclient.RespInvite
+	if err := json.Unmarshal(in, &ri); err == nil {
+		_, _ = json.Marshal(ri)
+	}
+	var ejs gmsl.EventJSONs
+	if err := json.Unmarshal(in, &ejs); err == nil {
+		_ = ejs.UntrustedEvents(rv)
+		_ = ejs.TrustedEvents(rv, false)
+	}
+}
+
+// ---- structure-aware JSON mutation ----
+
+var fuzzDictKeys = []string{"event", "room_version", "pdus", "auth_chain", "state", "origin", "members_omitted", "servers_in_room", "events", "edus", "edu_type",
+	"content", "devices", "device_id", "user_id", "stream_id", "keys", "signatures", "usage", "master_key", "self_signing_key", "algorithms", "invite_room_state",
+	"prev_events", "auth_events", "depth", "sender", "type", "state_key", "room_id", "redacts", "unsigned", "hashes", "origin_server_ts", "_room_version", "_event_id",
+	"chunk", "latest_events", "earliest_events", "limit", "min_depth", "pdu_ids", "auth_chain_ids", "Event", "Room_version", "ſtate", "server_name", "verify_keys",
+	"old_verify_keys", "valid_until_ts", "device_display_name", "one_time_keys", "device_keys", "failures", "children", "children_state", "room", "next_batch"}
+
+// refEntry is one entry of a prev_events / auth_events list as a hostile server may send it.
+func (r *Rng) refEntry() interface{} {
+	id := Pick(r, []string{"$a:b", "$e1:hs1", "$" + strings.Repeat("A", 43), "$" + r.id43(), "$", "", "x", "a:b", "$-_:b", "$////:b", "$ab:b", "$abc=:b"})
+	hashes := Pick(r, []interface{}{map[string]interface{}{"sha256": "47DEQpj8HBSa+/TImW+5JCeuQeRkm5NMpJWZG3hSuFU"}, map[string]interface{}{"sha256": "!!"}, map[string]interface{}{"sha256": 5},
+		map[string]interface{}{}, nil, 5, "x", []interface{}{}, map[string]interface{}{"sha256": nil}, map[string]interface{}{"md5": "x"}})
+	switch r.Intn(16) {
+	case 0, 1, 2, 3:
+		return id
+	case 4, 5, 6:
+		return []interface{}{id, hashes}
+	case 7:
+		return []interface{}{}
+	case 8:
+		return []interface{}{Pick(r, []interface{}{5, nil, true, 1.5, map[string]interface{}{}, []interface{}{}, []interface{}{id}}), hashes}
+	case 9:
+		return []interface{}{id}
+	case 10:
+		return []interface{}{id, hashes, id}
+	case 11:
+		return Pick(r, []interface{}{5, nil, true, false, 1.5, map[string]interface{}{}, map[string]interface{}{"0": id}, -1})
+	case 12:
+		return []interface{}{[]interface{}{}}
+	case 13:
+		return []interface{}{[]interface{}{id, hashes}}
+	case 14:
+		return ""
+	default:
+		return []interface{}{"", hashes}
+	}
+}
+
+// refList is a whole prev_events / auth_events value.
+func (r *Rng) refList() interface{} {
+	switch r.Intn(20) {
+	case 0:
+		return Pick(r, []interface{}{nil, map[string]interface{}{}, "x", "$a:b", 5, true, map[string]interface{}{"0": "$a:b"}})
+	case 1:
+		return []interface{}{}
+	case 2: // a huge list
+		e := r.refEntry()
+		n := Pick(r, []int{300, 1500, 5000})
+		out := make([]interface{}, n)
+		for i := range out {
+			out[i] = e
+		}
+		return out
+	}
+	n := 1 + r.Intn(4)
+	out := make([]interface{}, n)
+	for i := range out {
+		out[i] = r.refEntry()
+	}
+	return out
+}
+
+// mutateJSONValue applies one structure-aware mutation somewhere inside v (objects and arrays are changed in place).
+func (r *Rng) mutateJSONValue(v interface{}) interface{} {
+	switch t := v.(type) {
+	case map[string]interface{}:
+		if len(t) > 0 && r.Chance(70) {
+			keys := make([]string, 0, len(t))
+			for k := range t {
+				keys = append(keys, k)
+			}
+			sort.Strings(keys)
+			k := Pick(r, keys)
+			t[k] = r.mutateJSONValue(t[k])
+			return t
+		}
+	case []interface{}:
+		if len(t) > 0 && r.Chance(70) {
+			i := r.Intn(len(t))
+			t[i] = r.mutateJSONValue(t[i])
+			return t
+		}
+	}
+	return r.mutateHere(v)
+}
+
+func (r *Rng) mutateHere(v interface{}) interface{} {
+	switch t := v.(type) {
+	case map[string]interface{}:
+		keys := make([]string, 0, len(t))
+		for k := range t {
+			keys = append(keys, k)
+		}
+		sort.Strings(keys)
+		switch r.Intn(7) {
+		case 0:
+			if len(keys) > 0 {
+				delete(t, Pick(r, keys))
+			}
+			return t
+		case 1:
+			t[Pick(r, fuzzDictKeys)] = r.weirdValue()
+			return t
+		case 2:
+			if len(keys) > 0 {
+				t[Pick(r, keys)] = nil
+			}
+			return t
+		case 3:
+			if len(keys) > 0 { // a case variant of a member name beside it (encoding/json folds names)
+				k := Pick(r, keys)
+				t[strings.ToUpper(k[:1])+k[1:]] = r.weirdValue()
+			}
+			return t
+		case 4:
+			if len(keys) > 0 { // retype one member
+				k := Pick(r, keys)
+				t[k] = r.retype(t[k])
+			}
+			return t
+		case 5:
+			return []interface{}{t}
+		}
+	case []interface{}:
+		switch r.Intn(8) {
+		case 0:
+			return []interface{}{}
+		case 1:
+			return append(t, r.weirdValue())
+		case 2:
+			if len(t) > 0 {
+				return append(t, t[r.Intn(len(t))])
+			}
+		case 3:
+			if len(t) > 0 {
+				return t[:r.Intn(len(t))]
+			}
+		case 4:
+			if len(t) > 0 { // the same element many times
+				e := t[r.Intn(len(t))]
+				n := Pick(r, []int{100, 1000})
+				out := make([]interface{}, n)
+				for i := range out {
+					out[i] = e
+				}
+				return out
+			}
+		case 5:
+			return []interface{}{t}
+		case 6:
+			return r.refList()
+		}
+	case string:
+		switch r.Intn(6) {
+		case 0:
+			return ""
+		case 1:
+			return Pick(r, weirdStrings)
+		case 2:
+			return t + t
+		case 3:
+			if len(t) > 0 {
+				return t[:r.Intn(len(t))]
+			}
+		case 4:
+			return string(r.Malform([]byte(t)))
+		}
+	}
+	if r.Chance(50) {
+		return r.retype(v)
+	}
+	return r.weirdValue()
+}
+
+// retype replaces a value by one of another JSON type built from it.
+func (r *Rng) retype(v interface{}) interface{} {
+	switch r.Intn(8) {
+	case 0:
+		return nil
+	case 1:
+		return []interface{}{v}
+	case 2:
+		return map[string]interface{}{"a": v}
+	case 3:
+		b, _ := json.Marshal(v)
+		return string(b)
+	case 4:
+		return Pick(r, []interface{}{0, -1, 1.5, int64(9007199254740992), int64(-9223372036854775808), json.RawMessage("1e400"), json.RawMessage("18446744073709551616")})
+	case 5:
+		return r.Bool()
+	case 6:
+		return []interface{}{}
+	default:
+		return map[string]interface{}{}
+	}
+}
+
+// mutatedBody returns n structure-aware mutations of a JSON text, as text.
+func (r *Rng) mutatedBody(seed []byte, n int) []byte {
+	var v interface{}
+	d := json.NewDecoder(bytes.NewReader(seed))
+	d.UseNumber()
+	if err := d.Decode(&v); err != nil {
+		return r.Malform(seed)
+	}
+	for i := 0; i < n; i++ {
+		v = r.mutateJSONValue(v)
+	}
+	b, err := json.Marshal(v)
+	if err != nil {
+		return r.Malform(seed)
+	}
+	return b
+}
+
+// ---- seeds: valid examples of every body kind (after the repository's *_test.go files) ----
+
+const seedEventV1 = `{"auth_events":[["$oXL79cT7fFxR7dPH:localhost",{"sha256":"abjkiDSg1RkuZrbj2jZoGMlQaaj1Ue3Jhi7I7NlKfXY"}]],"content":{"body":"Test Message"},"depth":3,"event_id":"$yvN1b43rlmcOs5fY:localhost","hashes":{"sha256":"Oh1mwI1jEqZ3tgJ+V1Dmu5nOEGpCE4RFUqyJv2gQXKs"},"origin":"localhost","origin_server_ts":1510854416361,"prev_events":[["$FqI6TVvWpcbcnJ97:localhost",{"sha256":"upCsBqUhNUgT2/+zkzg8TbqdQpWWKQnZpGJc6KcbUC4"}]],"prev_state":[],"room_id":"!roomid:localhost","sender":"@userid:localhost","signatures":{"localhost":{"ed25519:auto":"JaEmxP8Vzs7UDrQFhCKm/Ub2mzCTBTrtYTDlM2JpTgEDPBGeTsPCDCQiuF8Cd9oqgSQiAI2ZaEWrCIplLtD2Dg"}},"type":"m.room.message"}`
+const seedEventV4 = `{"auth_events":["$x4MKEPRSF6OGlo0qpnsP3BfSmYX5HhVlykOsQH3ECyg","$BcEcbZnlFLB5rxSNSZNBn6fO3jU_TKAJ79wfKyCQLiU"],"content":{"body":"Test Message"},"depth":5,"hashes":{"sha256":"1bCa8K8ubyNzQUtvyJUfR0GFpbf9GbdCp4GMmb2L1pI"},"origin":"localhost","origin_server_ts":1510854416361,"prev_events":["$4F2GuzFXRZ_ggaHm5W0G8X9pu3Za2dURBcAnsHVTI6M"],"room_id":"!roomid:localhost","sender":"@userid:localhost","signatures":{"localhost":{"ed25519:auto":"1dWRA4IWtWnGjXRAIYMKbjd2qAnBLYtMAt5UwKuhgQMOLpxvNxFCiH9K5hbbD2eSrNSYSGBGY8E8XtlbNTtoBA"}},"type":"m.room.message","unsigned":{"age_ts":1510854416361}}`
+
+var fuzzSeeds = map[string][]string{
+	"makejoin": {
+		`{"room_version":"1","event":{"type":"m.room.member","sender":"@u:me","room_id":"!r:me","state_key":"@u:me","content":{"membership":"join"},"depth":5,"origin":"hs1","origin_server_ts":1,"prev_events":[["$p:hs1",{"sha256":"47DEQpj8HBSa+/TImW+5JCeuQeRkm5NMpJWZG3hSuFU"}]],"auth_events":[["$c:hs1",{"sha256":"47DEQpj8HBSa+/TImW+5JCeuQeRkm5NMpJWZG3hSuFU"}],["$pl:hs1",{"sha256":"47DEQpj8HBSa+/TImW+5JCeuQeRkm5NMpJWZG3hSuFU"}]]}}`,
+		`{"room_version":"10","event":{"type":"m.room.member","sender":"@u:me","room_id":"!r:me","state_key":"@u:me","content":{"membership":"join","join_authorised_via_users_server":"@a:hs1"},"depth":5,"origin_server_ts":1,"prev_events":["$4F2GuzFXRZ_ggaHm5W0G8X9pu3Za2dURBcAnsHVTI6M"],"auth_events":["$x4MKEPRSF6OGlo0qpnsP3BfSmYX5HhVlykOsQH3ECyg","$BcEcbZnlFLB5rxSNSZNBn6fO3jU_TKAJ79wfKyCQLiU"]}}`,
+		`{"event":{"type":"m.room.member","sender":"@u:me","room_id":"!r:me","state_key":"@u:me","content":{"membership":"leave"},"prev_events":["$a:b"],"auth_events":["$c:d"],"signatures":{"hs1":{"ed25519:1":"AAAA"}},"unsigned":{"a":1},"redacts":"$x:y"}}`,
+		`{"room_version":"12","invite_room_state":[{"type":"m.room.name","sender":"@a:b","state_key":"","content":{"name":"x"}}],"event":{"type":"m.room.member","sender":"@a:hs1","room_id":"!AAAAAAAAAAAAAAAAAAAAAAAAAAAAAAAAAAAAAAAAAAA","state_key":"@u:me","content":{"membership":"invite"},"depth":2,"prev_events":["$4F2GuzFXRZ_ggaHm5W0G8X9pu3Za2dURBcAnsHVTI6M"],"auth_events":[]}}`,
+	},
+	"fedtypes": {
+		`{"pdus":[` + seedEventV4 + `],"auth_chain":[` + seedEventV4 + `]}`,
+		`{"state":[` + seedEventV1 + `],"auth_chain":[` + seedEventV1 + `],"origin":"o1","members_omitted":true,"servers_in_room":["s1","s2"],"event":` + seedEventV4 + `}`,
+		`{"events":[` + seedEventV4 + `,` + seedEventV1 + `]}`,
+		`{"pdu_ids":["$a:b","$c:d"],"auth_chain_ids":["$e:f"]}`,
+		`{"user_id":"@a:b","stream_id":5,"devices":[{"device_id":"D","device_display_name":"n","keys":{"user_id":"@a:b","device_id":"D","algorithms":["m.olm.v1"],"keys":{"curve25519:D":"3C5BFWi2Y8MaVvjM8M22DBmh24PmgR0nPvJOIArzgyI"},"signatures":{"@a:b":{"ed25519:D":"dSO80A01XiigH3uBiDVx/EjzaoycHcjq9lfQX0uWsqxl2giMIiSPR8a4d291W1ihKJL/a+myXS367WT6NAIcBA"}}}}],"master_key":{"user_id":"@a:b","usage":["master"],"keys":{"ed25519:k":"3C5BFWi2Y8MaVvjM8M22DBmh24PmgR0nPvJOIArzgyI"}},"self_signing_key":{"user_id":"@a:b","usage":["self_signing"],"keys":{"ed25519:k":"3C5BFWi2Y8MaVvjM8M22DBmh24PmgR0nPvJOIArzgyI"},"signatures":{"@a:b":{"ed25519:k":"AAAA"}}}}`,
+		`{"chunk":[{"room_id":"!r:b","name":"n","num_joined_members":5,"world_readable":true,"guest_can_join":false,"aliases":["#a:b"]}],"next_batch":"n","total_room_count_estimate":1}`,
+		`{"limit":10,"min_depth":0,"earliest_events":["$a:b"],"latest_events":["$c:d"]}`,
+		`{"event_id":"$a:b","max_depth":3,"max_breadth":10,"limit":100,"depth_first":false,"recent_first":true,"include_parent":true,"include_children":true,"direction":"down","batch":"b"}`,
+		`{"room":{"room_id":"!r:b","num_joined_members":1,"children_state":[{"type":"m.space.child","state_key":"!c:b","content":{"via":["b"]},"sender":"@a:b","origin_server_ts":1}],"allowed_room_ids":["!x:y"]},"children":[],"inaccessible_children":["!z:b"]}`,
+		`[200,{"event":` + seedEventV4 + `}]`,
+		`{"renewal_interval":5,"state":[` + seedEventV4 + `],"auth_chain":[],"room_version":"6","latest_event":` + seedEventV4 + `}`,
+		`{"room_id":"!r:b","servers":["a","b"]}`,
+		`{"server":{"name":"x","version":"1"}}`,
+		`{"pdus":{"$a:b":{"error":"x"},"$c:d":{}}}`,
+	},
+	"headered": {
+		`{"_room_version":"1","_event_id":"$yvN1b43rlmcOs5fY:localhost",` + seedEventV1[1:],
+		`{"_room_version":"4",` + seedEventV4[1:],
+		`{"_room_version":"10","_event_id":"$4F2GuzFXRZ_ggaHm5W0G8X9pu3Za2dURBcAnsHVTI6M",` + seedEventV4[1:],
+	},
+	"text": {
+		`"localhost/ed25519:auto"`, `localhost/ed25519:auto`, `{"localhost/ed25519:auto":1234}`, `"0123456789abcdef"`, `"AAAA"`, `"47DEQpj8HBSa+/TImW+5JCeuQeRkm5NMpJWZG3hSuFU"`,
+		`"47DEQpj8HBSa-_TImW-5JCeuQeRkm5NMpJWZG3hSuFU="`, `1510854416361`, `{"type":"m.room.name","sender":"@a:b","state_key":"","content":{"name":"x"}}`,
+		`{"users":{"@a:b":100},"users_default":0,"events":{"m.room.name":50},"events_default":0,"state_default":50,"ban":50,"kick":50,"redact":50,"invite":0,"notifications":{"room":50}}`,
+		`{"membership":"invite","third_party_invite":{"display_name":"x","signed":{"mxid":"@a:b","token":"t","signatures":{"id":{"ed25519:0":"AAAA"}}}},"mxid_mapping":{"user_room_key":"AAAA","user_id":"@a:b","signatures":{"b":{"ed25519:1":"AAAA"}}}}`,
+		`{"display_name":"x","key_validity_url":"https://x","public_key":"AAAA","public_keys":[{"public_key":"AAAA","key_validity_url":"https://x"}]}`,
+		`{"server_name":"a","valid_until_ts":1,"verify_keys":{"ed25519:1":{"key":"Noi6WqcDj0QmPxCNQqgezwTlBKrfqehY1u2FyWP9uYw"}},"old_verify_keys":{"ed25519:0":{"key":"Noi6WqcDj0QmPxCNQqgezwTlBKrfqehY1u2FyWP9uYw","expired_ts":1}},"signatures":{"a":{"ed25519:1":"AAAA"}}}`,
+	},
+	"xsign": {
+		`{"user_id":"@a:b","usage":["master"],"keys":{"ed25519:k":"3C5BFWi2Y8MaVvjM8M22DBmh24PmgR0nPvJOIArzgyI"},"signatures":{"@a:b":{"ed25519:k":"AAAA"}}}`,
+		`{"master_key":{"user_id":"@a:b","usage":["master"],"keys":{"ed25519:k":"AAAA"}},"self_signing_key":{"user_id":"@a:b","usage":["self_signing","master"],"keys":{"ed25519:k":"AAAA"}},"user_signing_key":{"user_id":"@a:b","usage":["user_signing"],"keys":{}}}`,
+		`{"user_id":"@a:b","device_id":"D","algorithms":["m.olm.v1"],"keys":{"curve25519:D":"AAAA"},"signatures":{"@a:b":{"ed25519:D":"AAAA"}},"unsigned":{"device_display_name":"x"}}`,
+		`{"@a:b":{"D":{"user_id":"@a:b","device_id":"D","algorithms":[],"keys":{},"signatures":{}},"k":{"user_id":"@a:b","usage":["master"],"keys":{"ed25519:k":"AAAA"}}}}`,
+		`{"device_keys":{"@a:b":{"D":{"user_id":"@a:b","device_id":"D","algorithms":[],"keys":{},"signatures":{}}}},"master_keys":{"@a:b":{"user_id":"@a:b","usage":["master"],"keys":{"ed25519:k":"AAAA"}}},"self_signing_keys":{},"failures":{"x":{}}}`,
+		`{"one_time_keys":{"@a:b":{"D":{"signed_curve25519:AAAA":{"key":"x","signatures":{}}}}}}`,
+	},
+	"invite": {
+		`{"room_version":"1","invite_room_state":[{"type":"m.room.name","sender":"@a:b","state_key":"","content":{"name":"x"}}],"event":` + seedEventV1 + `}`,
+		`{"room_version":"4","invite_room_state":[],"event":` + seedEventV4 + `}`,
+		`{"room_version":"10","event":{"type":"m.room.member","sender":"@a:hs1","room_id":"!r:hs1","state_key":"@u:me","content":{"membership":"invite"},"depth":2,"prev_events":[],"auth_events":[]}}`,
+		`[200,{"event":` + seedEventV4 + `}]`,
+		`{"event":` + seedEventV4 + `}`,
+	},
+	"txn": {
+		`{"origin":"hs1","origin_server_ts":1510854416361,"pdus":[` + seedEventV4 + `],"edus":[{"edu_type":"m.typing","origin":"hs1","destination":"me","content":{"room_id":"!r:b","user_id":"@a:b","typing":true}}]}`,
+		`{"origin":"hs1","origin_server_ts":1,"pdus":[` + seedEventV1 + `,` + seedEventV1 + `]}`,
+		`{"edu_type":"m.device_list_update","origin":"hs1","content":{"user_id":"@a:b","device_id":"D","stream_id":5,"prev_id":[4],"deleted":false,"keys":{}}}`,
+		`{"pdus":{"$a:b":{"error":"x"}}}`,
+	},
+}
+
+var fuzzHeaders = []string{`X-Matrix origin="a",key="ed25519:1",sig="x",destination="x"`, `X-Matrix origin=a,key=,sig=`, `X-Matrix `, `X-Matrix`, ``, ` `, `X-Matrix ,,,`, `X-Matrix =`, `X-Matrix origin="`, `X-Matrix origin=""""`,
+	`Bearer x`, "X-Matrix origin=\"a\",key=\"ed25519:1\",sig=\"" + strings.Repeat("A", 86) + "\"", `X-Matrix origin="[::1]:80",key="k",sig="s",destination="x"`, `x-matrix ORIGIN="a",KEY="ed25519:1",SIG="AAAA"`,
+	`X-Matrix origin="a",origin="b",key="ed25519:1",sig="AAAA"`, `X-Matrix origin="a", key="ed25519:1", sig="AAAA"`, "X-Matrix origin=\"a\",key=\"ed25519:1\",sig=\"AA\\\"AA\"", `X-Matrix origin=a;key=b;sig=c`, `X-Matrix` + "\t" + `origin="a"`,
+	`X-Matrix origin="a",key="ed25519:1",sig="AAAA",destination="y"`, `Basic QWxhZGRpbjpvcGVuIHNlc2FtZQ==`, `X-Matrix origin="é",key="ed25519:1",sig="AAAA"`}
+
+var fuzzContentTypes = []string{"application/json", "", "application/json; charset=utf-8", "application/json;", "application/json; charset", "text/plain", "application/json; charset=\"", ";", "/", "application/json,application/json",
+	"APPLICATION/JSON", "application/jsonx", "application/json; a=b; a=c", " application/json", "application/json\x00", "multipart/form-data; boundary=", "a/b/c", "application/*", "\xff"}
 
 // ---- generators ----
 
@@ -466,6 +1237,150 @@ func genFuzz(o *Out, tier string, r *Rng) {
 		rb, _ := json.Marshal(resp)
 		o.Do("resp", ver, hx(rb))
 		o.Do("resp", ver, hx(r.Malform(rb)))
+		// ---- second audit round: entry points the stream did not reach ----
+		// (P2) a create / aliases event from a sender that is no user ID, the rest of the room as context: the pipeline asks
+		// `Allowed` with the querier that answers (nil, nil) for such a sender
+		if r.Chance(30) {
+			src := target
+			if r.Chance(50) {
+				src = h.All[0]
+			}
+			ms := evMap(src)
+			ms["sender"] = Pick(r, []string{"", "Zm9v", "notauser", "@nodomain", "abc:def", strings.Repeat("A", 43)})
+			if r.Chance(50) {
+				ms["type"] = "m.room.aliases"
+				ms["state_key"] = Pick(r, []string{"hs1", "", "Zm9v"})
+			} else {
+				ms["type"] = "m.room.create"
+				ms["state_key"] = ""
+				ms["prev_events"] = []interface{}{}
+			}
+			if r.Chance(70) {
+				withHash(ms)
+			}
+			sj, _ := json.Marshal(ms)
+			nargs := []string{ver, hx(sj)}
+			for _, e := range h.All {
+				nargs = append(nargs, hx(e.JSON))
+			}
+			o.Do("event", nargs...)
+			o.Count("event.sender-not-a-user-id")
+		}
+		// (P1) proto events chosen by the remote server: structure-aware reference lists, every room version (1 and 2 convert
+		// the references)
+		{
+			var body map[string]interface{}
+			_ = json.Unmarshal([]byte(Pick(r, fuzzSeeds["makejoin"])), &body)
+			ev, _ := body["event"].(map[string]interface{})
+			if ev == nil {
+				ev = map[string]interface{}{}
+			}
+			if r.Chance(85) {
+				ev[Pick(r, []string{"prev_events", "auth_events"})] = r.refList()
+			}
+			if r.Chance(40) {
+				ev[Pick(r, []string{"prev_events", "auth_events"})] = r.refList()
+			}
+			if r.Chance(30) {
+				ev[Pick(r, []string{"depth", "signatures", "unsigned", "content", "state_key", "redacts", "room_id", "sender", "type", "origin"})] = r.weirdValue()
+			}
+			body["event"] = ev
+			if r.Chance(30) {
+				body["room_version"] = Pick(r, []interface{}{ver, "1", "2", "", nil, 5, "99", "org.matrix.msc4014"})
+			}
+			bb, _ := json.Marshal(body)
+			if r.Chance(25) {
+				bb = r.mutatedBody(bb, 1+r.Intn(3))
+			}
+			for _, bv := range []string{"1", "2", ver} {
+				o.Do("makejoin", bv, hx(bb))
+			}
+			if r.Chance(30) {
+				o.Do("makejoin", Pick(r, []string{"1", "2"}), hx(r.Malform(bb)))
+			}
+			// the conversion alone, against its model
+			refText := func() string {
+				if r.Chance(8) {
+					return "-"
+				}
+				l := r.refList()
+				if arr, ok := l.([]interface{}); ok && len(arr) > 200 {
+					l = arr[:Pick(r, []int{1, 50, 200})]
+				}
+				b, _ := json.Marshal(l)
+				return hx(b)
+			}
+			bv := ver
+			if r.Chance(60) {
+				bv = Pick(r, []string{"1", "2"})
+			}
+			o.Do("buildrefs", bv, refText(), refText())
+		}
+		// (P4) every other body kind: structure-aware mutations of valid examples, raw byte mutations
+		for _, kind := range []string{"fedtypes", "headered", "text", "xsign", "invite", "txn"} {
+			seed := []byte(Pick(r, fuzzSeeds[kind]))
+			var body []byte
+			switch r.Intn(10) {
+			case 0:
+				body = seed
+			case 1, 2:
+				body = r.Malform(seed)
+			case 3:
+				body = r.Malform(r.mutatedBody(seed, 1+r.Intn(2)))
+			default:
+				body = r.mutatedBody(seed, 1+r.Intn(3))
+			}
+			if kind == "fedtypes" && r.Chance(25) {
+				// the generated (possibly mutated) event inside a response of each shape
+				body, _ = json.Marshal(map[string]interface{}{"pdus": []json.RawMessage{tj}, "auth_chain": []json.RawMessage{target.JSON}, "state": []json.RawMessage{tj}, "events": []json.RawMessage{tj},
+					"event": json.RawMessage(tj), "latest_event": json.RawMessage(tj), "room_version": ver, Pick(r, fuzzDictKeys): r.weirdValue()})
+			}
+			if kind == "headered" && r.Chance(60) {
+				// a generated (often mutated) event with the headers the library itself would write
+				mh := evMap(target)
+				if r.Chance(60) {
+					r.mutateEvent(mh)
+				}
+				plain, _ := json.Marshal(mh)
+				mh["_room_version"] = ver
+				mh["_event_id"] = ownEventID(ver, plain)
+				if r.Chance(15) {
+					mh["_room_version"] = Pick(r, []interface{}{"", nil, 5, "99", Pick(r, allVersions)})
+				}
+				if r.Chance(15) {
+					mh["_event_id"] = Pick(r, []interface{}{target.ID, "", "$", "$x", nil, 5, "!", "$" + strings.Repeat("A", 43)})
+				}
+				body, _ = json.Marshal(mh)
+			}
+			if kind == "invite" && r.Chance(40) {
+				body, _ = json.Marshal(map[string]interface{}{"room_version": Pick(r, []interface{}{ver, ver, "", nil, 5, "99"}), "event": json.RawMessage(tj),
+					"invite_room_state": Pick(r, []interface{}{nil, []interface{}{}, []interface{}{map[string]interface{}{"type": "m.room.name", "sender": "@a:b", "state_key": "", "content": map[string]interface{}{}}}, r.weirdValue()})})
+			}
+			if kind == "txn" && r.Chance(40) {
+				body, _ = json.Marshal(map[string]interface{}{"origin": Pick(r, weirdStrings), "origin_server_ts": r.weirdValue(), "pdus": []json.RawMessage{tj, target.JSON},
+					"edus": Pick(r, []interface{}{nil, []interface{}{}, []interface{}{map[string]interface{}{"edu_type": "m.typing", "content": r.weirdValue()}}, r.weirdValue()})})
+			}
+			o.Do(kind, ver, hx(body))
+		}
+		// VerifyHTTPRequest: two Authorization headers, odd Content-Types, methods, URIs and bodies
+		{
+			h1 := Pick(r, fuzzHeaders)
+			h2 := ""
+			if r.Chance(50) {
+				h2 = Pick(r, fuzzHeaders)
+			}
+			if r.Chance(30) {
+				h1 = string(r.Malform([]byte(h1)))
+			}
+			ct := Pick(r, fuzzContentTypes)
+			if r.Chance(15) {
+				ct = string(r.Malform([]byte(ct)))
+			}
+			method := Pick(r, []string{"PUT", "GET", "POST", "DELETE", "", "put", "P T"})
+			uri := Pick(r, []string{"/_matrix/federation/v1/send/1", "/", "", "/a?b=c", "/%zz", "/a b", "//x", "/é", "/_matrix/federation/v2/invite/!r:b/$e:b?x=" + strings.Repeat("y", 300)})
+			body := Pick(r, [][]byte{[]byte("{}"), nil, []byte("[]"), []byte("null"), []byte(`{"a":1}`), tj, []byte("{"), []byte(`"x"`), []byte(`{"a":1.5}`), []byte("\xff"), doc})
+			o.Do("httpreq", ver, hx([]byte(h1)), hx([]byte(h2)), hx([]byte(ct)), hx([]byte(method)), hx([]byte(uri)), hx(body))
+		}
 		// tokens
 		tok := Pick(r, []string{"", "AAAA", "!!!!", "MDAxY2xvY2F0aW9uIHMKMDAxM2lkZW50aWZpZXIgQHU6cwowMDEwY2lkIGdlbiA9IDEK", strings.Repeat("A", 500)})
 		o.Do("token", ver, hx(r.Malform([]byte(tok))))
